@@ -424,3 +424,54 @@ def c03_trace_rule(rep, ap, rng, tier, pid):
         finish(rep, pid, 'k', terms, metas, 'the adjoint the implementation returns differs from the proved rule pb_trace of Mask.v')
     finally:
         IMPORTS = imp
+
+
+def c03_view_rules(rep, ap, rng, tier, pid):
+    """reverse sweep through VIEW-like nodes recorded by the tracer - x[ix] with a generated basic index expression, transposition, reshape -
+    with the adjoint of the parent prefilled by a second use of x: xbar must be (ybar2 broadcast as is) + scatter of ybar along the index
+    list the Coq model computes from the index expression (GatherRules.v: that scatter is the adjoint), exactly"""
+    import c13
+    U = ap.UTPM
+    terms, metas = [], []
+    for it in range(16 if tier == 'quick' else 200):
+        D = 1 + it % 3; P = 1 + (it // 3) % 2
+        rank = 1 + it % 3
+        shp = tuple(rng.randint(1, 3) for _ in range(rank))
+        x = idata(rng, D, P, *shp)
+        n = int(numpy.prod(shp))
+        kind = ('getitem', 'transpose', 'reshape', 'getitem')[it % 4]
+        try:
+            if kind == 'getitem':
+                items = c13.gen_index(rng, shp)
+                if not c13.index_valid(items, shp):
+                    continue
+                ix = c13.py_index(items)
+                op = lambda fx: fx[ix]
+                idx_term = '(if getitem_gather %s %s is Some g then g.2 else [::])' % (c13.coq_index(items), lib.natseq(shp))
+                desc = repr(ix)
+            elif kind == 'transpose':
+                op = lambda fx: fx.T
+                idx_term = '(transpose_gather %s %s).2' % (lib.natseq(list(range(rank))[::-1]), lib.natseq(shp))
+                desc = '.T'
+            else:
+                ns = (n,) if it % 8 < 4 else (1, n)
+                op = lambda fx: fx.reshape(ns)
+                idx_term = '(iota 0 %d)' % n
+                desc = 'reshape%r' % (ns,)
+            cg = ap.CGraph(); fx = ap.Function(U(x.copy()))
+            fy = op(fx)
+            if not isinstance(fy, ap.Function) or not isinstance(fy.x, U) or fy.x.data.ndim < 2:
+                continue
+            fz = fx * 1.0           # a second use of x: its adjoint is added to the same parent adjoint
+            cg.trace_off(); cg.independentFunctionList = [fx]; cg.dependentFunctionList = [fy, fz]
+            yb = idata(rng, *fy.x.data.shape); zb = idata(rng, *x.shape)
+            cg.pullback([U(yb.copy()), U(zb.copy())])
+            xb = numpy.asarray(fx.xbar.data) - zb
+        except Exception as e:
+            rep.violation('reduce:exception', 'reverse sweep through %s raises %s' % (kind, repr(e)[:300]), dict(kind='reduce-model', shape=shp, exc=repr(e)[:1500]))
+            continue
+        for d in range(D):
+            for p in range(P):
+                terms.append('(eqs (scatter_add %s %s %d) %s)' % (idx_term, flat(yb[d, p]), n, flat(xb[d, p])))
+                metas.append(dict(op='view:' + kind, shape=list(shp), index=desc, D=D, d=d, p=p))
+    finish(rep, pid, 'v', terms, metas, 'the adjoint of the parent after the reverse sweep differs from the scatter of ybar along the model index list (GatherRules.v)')
